@@ -1,3 +1,641 @@
-/-! C08 model (stub) -/
+import OtelVerif.Model.Wire
+import OtelVerif.Model.Proto
+/-!
+# C08 model — generic gogo-protobuf codec and OTLP/JSON mapping over a schema
+
+`enc` / `sz` mirror the generated `MarshalToSizedBuffer` / `Size` (fields in marshal order, proto3
+zero-omission, `nullable=false` messages and customtype ids always written, one-of alternative always
+written, packed scalars).  `decMsg` mirrors the generated `Unmarshal` loop: key varint, `int32` field
+number truncation, wire type 4 / field number ≤ 0 rejected, `switch fieldNum` with wire-type checks,
+merge into embedded messages, fresh element for repeated / one-of messages, packed **and** unpacked
+forms for packed fields (including the quirk that a packed element may run past the declared length),
+`skipX` for unknown fields (groups with depth).  `toJ` mirrors `jsonpb.Marshaler{EnumsAsInts, OrigName:false}`
+as configured in `pdata/internal/json`, `fromJ` the hand-written jsoniter readers (`case` labels are
+schema data: `Msg.jsonKeys`).  Text-level codecs (decimal, float text, base64, hex) are a parameter
+`Txt`; the driver instantiates it, the theorems quantify over every lawful instance.
+Core Lean only.
+-/
 namespace OtelVerif.C08
+open OtelVerif.Wire OtelVerif.Proto
+
+/-! ## scalars -/
+
+def wireType : Ty → Nat
+  | .u64 | .i64 | .u32 | .i32 | .bool | .enum _ | .s32 => 0
+  | .fixed64 | .sfixed64 | .double => 1
+  | .fixed32 => 5
+  | _ => 2
+
+def isScalar : Ty → Bool
+  | .string | .bytes | .id _ | .msg _ => false
+  | _ => true
+
+/-- `uint64(int32)`: sign extension of a 32-bit pattern -/
+def sext32 (n : Nat) : Nat := let m := n % 2 ^ 32; if m < 2 ^ 31 then m else m + (2 ^ 64 - 2 ^ 32)
+/-- `(uint32(x) << 1) ^ uint32(x >> 31)` on the 32-bit pattern -/
+def zigzag32 (n : Nat) : Nat := let m := n % 2 ^ 32; if m < 2 ^ 31 then 2 * m else 2 ^ 33 - 1 - 2 * m
+/-- `int32((uint32(v) >> 1) ^ uint32(((v&1)<<31)>>31))` -/
+def unzigzag32 (r : Nat) : Nat := let r := r % 2 ^ 32; if r % 2 = 0 then r / 2 else 2 ^ 32 - 1 - r / 2
+/-- `(x << 1) ^ uint64(int64(x) >> 63)` — what `sozX` applies to the sign-extended value -/
+def zigzag64 (y : Nat) : Nat := let y := y % 2 ^ 64; if y < 2 ^ 63 then 2 * y else 2 ^ 65 - 1 - 2 * y
+
+/-- payload bytes of a scalar whose stored bit pattern is `n` -/
+def encScalar : Ty → Nat → Bytes
+  | .u64, n | .i64, n | .u32, n => varint n
+  | .i32, n | .enum _, n => varint (sext32 n)
+  | .bool, n => [if n = 0 then 0 else 1]
+  | .s32, n => varint (zigzag32 n)
+  | .fixed64, n | .sfixed64, n | .double, n => le 8 n
+  | .fixed32, n => le 4 n
+  | _, _ => []
+
+/-- the summand of the generated `Size()` for the payload of a scalar -/
+def scalarSize : Ty → Nat → Nat
+  | .u64, n | .i64, n | .u32, n => sov n
+  | .i32, n | .enum _, n => sov (sext32 n)
+  | .bool, _ => 1
+  | .s32, n => sov (zigzag64 (sext32 n))
+  | .fixed64, _ | .sfixed64, _ | .double, _ => 8
+  | .fixed32, _ => 4
+  | _, _ => 0
+
+/-- what the decoder stores for a raw varint `w < 2^64` -/
+def fromVarint : Ty → Nat → Nat
+  | .u64, w | .i64, w => w
+  | .u32, w | .i32, w | .enum _, w => w % 2 ^ 32
+  | .bool, w => if w = 0 then 0 else 1
+  | .s32, w => unzigzag32 w
+  | _, w => w
+
+/-- read one scalar of type `ty` from the front of `r` -/
+def decScalar (ty : Ty) (r : Bytes) : Option (Nat × Bytes) :=
+  match wireType ty with
+  | 0 => match decVarint r with
+         | some (w, r') => some (fromVarint ty w, r')
+         | none => none
+  | 1 => unle 8 r
+  | 5 => unle 4 r
+  | _ => none
+
+/-- the zero test of the generated marshaler / sizer for a proto3 singular field
+(`!= 0` on a float64 is false for both zeros) -/
+def isZero : Ty → Val → Bool
+  | .double, .num n => n % 2 ^ 63 == 0
+  | _, .num n => n == 0
+  | _, .bytes b => b.isEmpty
+  | _, _ => true
+
+/-! ## protobuf encode / size -/
+
+inductive Mode where
+  | slots (ss : List Slot)
+  | elem (f : Field)
+  | reps (f : Field)
+  | slot (s : Slot)
+
+def Mode.rank : Mode → Nat
+  | .slots _ => 0
+  | .elem _ => 1
+  | .reps _ => 2
+  | .slot _ => 3
+
+def findAlt (alts : List Field) (k : Nat) : Option Field := alts.find? (fun a => a.num == k)
+
+def packedBody (ty : Ty) : Val → Bytes
+  | .cons (.num n) rest => encScalar ty n ++ packedBody ty rest
+  | _ => []
+
+def packedSize (ty : Ty) : Val → Nat
+  | .cons (.num n) rest => scalarSize ty n + packedSize ty rest
+  | _ => 0
+
+/-- tag-less payload of a non-message element (length prefix included for length-delimited types) -/
+def leaf (ty : Ty) : Val → Bytes
+  | .num n => if isScalar ty then encScalar ty n else []
+  | .bytes b => if isScalar ty then [] else lenPrefixed b
+  | _ => if isScalar ty then [] else lenPrefixed []
+
+def leafSize (ty : Ty) : Val → Nat
+  | .num n => if isScalar ty then scalarSize ty n else 0
+  | .bytes b => if isScalar ty then 0 else sov b.length + b.length
+  | _ => if isScalar ty then 0 else 1
+
+def enc (S : Schema) : Mode → Val → Bytes
+  | .slots (s :: ss), .cons x xs => enc S (.slot s) x ++ enc S (.slots ss) xs
+  | .slots _, _ => []
+  | .elem f, v =>
+    match f.ty with
+    | .msg sub => tag f.num 2 ++ lenPrefixed (enc S (.slots (S.slots sub)) v)
+    | ty => tag f.num (wireType ty) ++ leaf ty v
+  | .reps f, .cons e rest => enc S (.elem f) e ++ enc S (.reps f) rest
+  | .reps _, _ => []
+  | .slot (.one f), v =>
+    match f.card with
+    | .opt => if isZero f.ty v then [] else enc S (.elem f) v
+    | .req => enc S (.elem f) v
+    | .rep => enc S (.reps f) v
+    | .packed => if v.isCons then tag f.num 2 ++ lenPrefixed (packedBody f.ty v) else []
+  | .slot (.oneof _ alts), .cons (.num k) (.cons p .nil) =>
+    match findAlt alts k with
+    | some a => enc S (.elem a) p
+    | none => []
+  | .slot (.oneof _ _), _ => []
+termination_by m v => (sizeOf v, m.rank)
+decreasing_by all_goals (simp_wf; simp [Mode.rank, Prod.lex_def]; try omega)
+
+def sz (S : Schema) : Mode → Val → Nat
+  | .slots (s :: ss), .cons x xs => sz S (.slot s) x + sz S (.slots ss) xs
+  | .slots _, _ => 0
+  | .elem f, v =>
+    match f.ty with
+    | .msg sub => let l := sz S (.slots (S.slots sub)) v; sov (f.num * 8 + 2) + (sov l + l)
+    | ty => sov (f.num * 8 + wireType ty) + leafSize ty v
+  | .reps f, .cons e rest => sz S (.elem f) e + sz S (.reps f) rest
+  | .reps _, _ => 0
+  | .slot (.one f), v =>
+    match f.card with
+    | .opt => if isZero f.ty v then 0 else sz S (.elem f) v
+    | .req => sz S (.elem f) v
+    | .rep => sz S (.reps f) v
+    | .packed => if v.isCons then let l := packedSize f.ty v; sov (f.num * 8 + 2) + (sov l + l) else 0
+  | .slot (.oneof _ alts), .cons (.num k) (.cons p .nil) =>
+    match findAlt alts k with
+    | some a => sz S (.elem a) p
+    | none => 0
+  | .slot (.oneof _ _), _ => 0
+termination_by m v => (sizeOf v, m.rank)
+decreasing_by all_goals (simp_wf; simp [Mode.rank, Prod.lex_def]; try omega)
+
+def encode (S : Schema) (m : Nat) (v : Val) : Bytes := enc S (.slots (S.slots m)) v
+def size (S : Schema) (m : Nat) (v : Val) : Nat := sz S (.slots (S.slots m)) v
+
+/-! ## defaults (`&T{}`) -/
+
+def slotDefault (D : List Val) : Slot → Val
+  | .one f =>
+    match f.card, f.ty with
+    | .opt, ty => if isScalar ty then .num 0 else .bytes []
+    | .req, .msg sub => D.getD sub .nil
+    | .req, _ => .bytes []
+    | _, _ => .nil
+  | .oneof _ _ => .nil
+
+def msgDefault (D : List Val) (ss : List Slot) : Val := Val.ofList (ss.map (slotDefault D))
+
+def defaultsStep (S : Schema) (D : List Val) : List Val := S.msgs.map (fun m => msgDefault D m.slots)
+
+def iter {α : Type} (f : α → α) : Nat → α → α
+  | 0, a => a
+  | n + 1, a => iter f n (f a)
+
+/-- default value of every message (`nullable=false` nesting is acyclic, so `msgs.length` rounds reach the fixed point;
+that it IS a fixed point is the decidable `DefaultsOk`) -/
+def defaults (S : Schema) : List Val := iter (defaultsStep S) (S.msgs.length + 1) (S.msgs.map (fun _ => .nil))
+
+def DefaultsOk (S : Schema) (D : List Val) : Bool := defaultsStep S D == D
+
+/-! ## protobuf decode -/
+
+structure Hit where
+  idx : Nat
+  f : Field
+  alt : Bool
+  deriving Repr
+
+def findSlot : List Slot → Nat → Nat → Option Hit
+  | [], _, _ => none
+  | .one f :: ss, i, n => if f.num == n then some ⟨i, f, false⟩ else findSlot ss (i + 1) n
+  | .oneof _ alts :: ss, i, n =>
+    match findAlt alts n with
+    | some a => some ⟨i, a, true⟩
+    | none => findSlot ss (i + 1) n
+
+/-- `skipX`: `bs` starts at a key; returns what follows the field (groups tracked by `depth`) -/
+def skipLoop : Nat → Nat → Bytes → Option Bytes
+  | 0, _, _ => none
+  | fuel + 1, depth, bs =>
+    match decVarint bs with
+    | none => none
+    | some (key, r) =>
+      let fin := fun (r' : Bytes) => if depth = 0 then some r' else skipLoop fuel depth r'
+      match key % 8 with
+      | 0 => match decVarint r with
+             | none => none
+             | some (_, r') => fin r'
+      | 1 => if r.length < 8 then none else fin (r.drop 8)
+      | 2 => match decVarint r with
+             | none => none
+             | some (len, r') => if len ≥ 2 ^ 63 then none else if len > r'.length then none else fin (r'.drop len)
+      | 3 => skipLoop fuel (depth + 1) r
+      | 4 => if depth = 0 then none else if depth = 1 then some r else skipLoop fuel (depth - 1) r
+      | 5 => if r.length < 4 then none else fin (r.drop 4)
+      | _ => none
+
+def skipField (bs : Bytes) : Option Bytes := skipLoop (bs.length + 1) 0 bs
+
+/-- `for iNdEx < postIndex { read one element }` — `budget = postIndex - iNdEx`; elements are read from all
+the remaining bytes of the message (the generated bounds check is against `l`, not `postIndex`) -/
+def decPackedLoop (ty : Ty) : Nat → Nat → Val → Bytes → Option (Val × Bytes)
+  | 0, _, _, _ => none
+  | fuel + 1, budget, acc, r =>
+    if budget = 0 then some (acc, r)
+    else match decScalar ty r with
+      | none => none
+      | some (v, r') => decPackedLoop ty fuel (budget - (r.length - r'.length)) (Val.snoc acc (.num v)) r'
+
+def allZero (p : Bytes) : Bool := p.all (· == 0)
+
+/-- one non-message field: `r` follows the key, `cur` is the current value of the slot -/
+def decLeaf (f : Field) (alt : Bool) (wt : Nat) (cur : Val) (r : Bytes) : Option (Val × Bytes) :=
+  let wrap := fun (x : Val) =>
+    if alt then Val.cons (.num f.num) (.cons x .nil) else if f.card = .rep then Val.snoc cur x else x
+  match f.ty with
+  | .msg _ => none
+  | .string | .bytes =>
+    if wt ≠ 2 then none else
+    match lenDelim r with
+    | none => none
+    | some (p, r') => some (wrap (.bytes p), r')
+  | .id n =>
+    if wt ≠ 2 then none else
+    match lenDelim r with
+    | none => none
+    | some (p, r') =>
+      if p.length = 0 then some (wrap (.bytes []), r')
+      else if p.length ≠ n then none
+      else some (wrap (.bytes (if allZero p then [] else p)), r')
+  | ty =>
+    if f.card = .packed ∧ !alt then
+      if wt = wireType ty then
+        match decScalar ty r with
+        | none => none
+        | some (v, r') => some (Val.snoc cur (.num v), r')
+      else if wt = 2 then
+        match decVarint r with
+        | none => none
+        | some (len, r') =>
+          if len ≥ 2 ^ 63 then none else if len > r'.length then none
+          else decPackedLoop ty (len + 1) len cur r'
+      else none
+    else if wt ≠ wireType ty then none
+    else match decScalar ty r with
+      | none => none
+      | some (v, r') => some (wrap (.num v), r')
+
+def decMsg (S : Schema) (D : List Val) (m : Nat) (acc : Val) (bs : Bytes) : Option Val :=
+  if bs.isEmpty then some acc else
+    match decVarint bs with
+    | none => none
+    | some (key, r) =>
+      let wt := key % 8
+      let fn := key / 8 % 2 ^ 32
+      if wt = 4 then none
+      else if fn = 0 ∨ fn ≥ 2 ^ 31 then none
+      else
+        match findSlot (S.slots m) 0 fn with
+        | none =>
+          match skipField bs with
+          | none => none
+          | some r' => if _h : r'.length < bs.length then decMsg S D m acc r' else none
+        | some hit =>
+          match hit.f.ty with
+          | .msg sub =>
+            if wt ≠ 2 then none else
+            match lenDelim r with
+            | none => none
+            | some (p, r') =>
+              if _h : p.length < bs.length ∧ r'.length < bs.length then
+                let cur := Val.get acc hit.idx
+                let start := if hit.alt then D.getD sub .nil
+                             else if hit.f.card = .req then cur else D.getD sub .nil
+                match decMsg S D sub start p with
+                | none => none
+                | some x =>
+                  let nv := if hit.alt then Val.cons (.num hit.f.num) (.cons x .nil)
+                            else if hit.f.card = .req then x else Val.snoc cur x
+                  decMsg S D m (Val.set acc hit.idx nv) r'
+              else none
+          | _ =>
+            match decLeaf hit.f hit.alt wt (Val.get acc hit.idx) r with
+            | none => none
+            | some (nv, r') =>
+              if _h : r'.length < bs.length then decMsg S D m (Val.set acc hit.idx nv) r' else none
+termination_by bs.length
+decreasing_by all_goals simp_wf <;> omega
+
+def decode (S : Schema) (D : List Val) (m : Nat) (bs : Bytes) : Option Val :=
+  decMsg S D m (D.getD m .nil) bs
+
+/-! ## canonical observation -/
+
+/-- What the public API / the harness's `toVal` can distinguish: a `-0.0` stored in a PLAIN proto3 double field
+(not one-of, not packed) is observed as `+0.0` (both codecs drop it: the generated zero test is `!= 0`). -/
+def canon (S : Schema) : Mode → Val → Val
+  | .slots (s :: ss), .cons x xs => .cons (canon S (.slot s) x) (canon S (.slots ss) xs)
+  | .slots _, v => v
+  | .elem f, v =>
+    match f.ty with
+    | .msg sub => canon S (.slots (S.slots sub)) v
+    | _ => v
+  | .reps f, .cons e rest => .cons (canon S (.elem f) e) (canon S (.reps f) rest)
+  | .reps _, v => v
+  | .slot (.one f), v =>
+    match f.card with
+    | .opt => if f.ty == .double && v == .num (2 ^ 63) then .num 0 else v
+    | .req => canon S (.elem f) v
+    | .rep => canon S (.reps f) v
+    | .packed => v
+  | .slot (.oneof g alts), .cons (.num k) (.cons p .nil) =>
+    match findAlt alts k with
+    | some a => .cons (.num k) (.cons (canon S (.elem a) p) .nil)
+    | none => .cons (.num k) (.cons p .nil)
+  | .slot (.oneof _ _), v => v
+termination_by m v => (sizeOf v, m.rank)
+decreasing_by all_goals (simp_wf; simp [Mode.rank, Prod.lex_def]; try omega)
+
+/-! ## migration of the deprecated scope fields (`pdata/internal/otlp`) -/
+
+def slotIdx (ss : List Slot) (n : Nat) : Option Nat := (findSlot ss 0 n).map (·.idx)
+
+/-- one `Resource{Logs,Metrics,Spans}`: `if len(X) == 0 { X = DeprecatedX }; DeprecatedX = nil` -/
+def migrateRes (ss : List Slot) (rv : Val) : Val :=
+  match slotIdx ss 2, slotIdx ss 1000 with
+  | some i, some d =>
+    let rv := if (Val.get rv i).isCons then rv else Val.set rv i (Val.get rv d)
+    Val.set rv d .nil
+  | _, _ => rv
+
+def mapChain (f : Val → Val) : Val → Val
+  | .cons h t => .cons (f h) (mapChain f t)
+  | v => v
+
+/-- root value = `[ [resource…] ]`; the element message of slot 0 is the Resource* message -/
+def migrate (S : Schema) (m : Nat) (v : Val) : Val :=
+  match S.slots m with
+  | .one f :: _ =>
+    match f.ty with
+    | .msg r => Val.set v 0 (mapChain (migrateRes (S.slots r)) (Val.get v 0))
+    | _ => v
+  | _ => v
+
+/-- which roots run `otlp.Migrate*` after a *protobuf* decode (`p*otlp/request.go`) -/
+def migratesPb (root : String) : Bool :=
+  root == "logsreq" || root == "metricsreq" || root == "tracesreq" || root == "profilesreq"
+/-- which roots run it after a JSON decode (`p*/json.go`, and the requests through them) -/
+def migratesJson (root : String) : Bool :=
+  root == "logs" || root == "metrics" || root == "traces" || root == "profiles" ||
+  root == "logsreq" || root == "metricsreq" || root == "tracesreq" || root == "profilesreq"
+
+/-! ## JSON -/
+
+/-- JSON tree as a plain inductive: arrays are `acons` chains ending in `anil`, objects `ocons` chains ending in `onil` -/
+inductive Json where
+  | null | tt | ff
+  | num (raw : List Nat)
+  | str (b : List Nat)
+  | anil
+  | acons (hd tl : Json)
+  | onil
+  | ocons (key : List Nat) (v : Json) (tl : Json)
+  deriving Repr, DecidableEq, Inhabited
+
+/-- text-level codecs (parameter; see `Drivers/C08.lean` for the executable instance) -/
+structure Txt where
+  dec    : Nat → List Nat                 -- decimal digits of a natural number
+  undec  : List Nat → Option Nat          -- plain decimal literal (no sign)
+  ffmt   : Nat → List Nat                 -- finite float64 bits → number text (`encoding/json`)
+  fparse : List Nat → Option Nat          -- number text / string content → float64 bits (`strconv.ParseFloat`)
+  b64    : List Nat → List Nat
+  unb64  : List Nat → Option (List Nat)
+  hex    : List Nat → List Nat
+  unhex  : List Nat → Option (List Nat)
+
+/-- bytes of an ASCII string (schema names and the constants "NaN"/"Infinity" are ASCII); kernel-reducible -/
+def str (s : String) : List Nat := s.toList.map (·.toNat)
+
+def isNaN (n : Nat) : Bool := n / 2 ^ 52 % 2 ^ 11 == 2 ^ 11 - 1 && n % 2 ^ 52 != 0
+def posInf : Nat := 0x7FF0000000000000
+def negInf : Nat := 0xFFF0000000000000
+/-- `math.NaN()` -/
+def canonNaN : Nat := 0x7FF8000000000001
+def normNaN (n : Nat) : Nat := if isNaN n then canonNaN else n
+
+/-- signed decimal of a two's-complement pattern of width `w` bits -/
+def sdec (T : Txt) (w n : Nat) : List Nat :=
+  if n < 2 ^ (w - 1) then T.dec n else 45 :: T.dec (2 ^ w - n)
+
+def leafJson (T : Txt) (ty : Ty) : Val → Json
+  | .num n =>
+    match ty with
+    | .u64 | .fixed64 => .str (T.dec n)
+    | .i64 | .sfixed64 => .str (sdec T 64 n)
+    | .u32 | .fixed32 => .num (T.dec n)
+    | .i32 | .enum _ | .s32 => .num (sdec T 32 n)
+    | .bool => if n = 0 then .ff else .tt
+    | .double =>
+      if isNaN n then .str (str "NaN")
+      else if n = posInf then .str (str "Infinity")
+      else if n = negInf then .str (str "-Infinity")
+      else .num (T.ffmt n)
+    | _ => .null
+  | .bytes b =>
+    match ty with
+    | .string => .str b
+    | .bytes => .str (T.b64 b)
+    | .id _ => .str (T.hex b)
+    | _ => .null
+  | _ => .null
+
+/-- jsonpb without `EmitDefaults`: which fields are left out -/
+def jsonOmit (f : Field) (v : Val) : Bool :=
+  match f.card with
+  | .opt => isZero f.ty v
+  | .req => false
+  | .rep | .packed => !v.isCons
+
+/-- JSON key of the selected alternative of a one-of slot value -/
+def oneofKey (alts : List Field) : Val → Option (List Nat)
+  | .cons (.num k) _ => (findAlt alts k).map (fun a => str a.json)
+  | _ => none
+
+def toJ (S : Schema) (T : Txt) : Mode → Val → Json
+  | .slots (s :: ss), .cons x xs =>
+    match s with
+    | .one f =>
+      if jsonOmit f x then toJ S T (.slots ss) xs
+      else .ocons (str f.json) (toJ S T (.slot s) x) (toJ S T (.slots ss) xs)
+    | .oneof _ alts =>
+      match oneofKey alts x with
+      | some key => .ocons key (toJ S T (.slot s) x) (toJ S T (.slots ss) xs)
+      | none => toJ S T (.slots ss) xs
+  | .slots _, _ => .onil
+  | .elem f, v =>
+    match f.ty with
+    | .msg sub => toJ S T (.slots (S.slots sub)) v
+    | ty => leafJson T ty v
+  | .reps f, .cons e rest => .acons (toJ S T (.elem f) e) (toJ S T (.reps f) rest)
+  | .reps _, _ => .anil
+  | .slot (.one f), v =>
+    match f.card with
+    | .rep | .packed => toJ S T (.reps f) v
+    | _ => toJ S T (.elem f) v
+  | .slot (.oneof _ alts), .cons (.num k) (.cons p .nil) =>
+    match findAlt alts k with
+    | some a => toJ S T (.elem a) p
+    | none => .null
+  | .slot (.oneof _ _), _ => .null       -- alternative selected, Go-nil payload: jsonpb prints `null`
+termination_by m v => (sizeOf v, m.rank)
+decreasing_by all_goals (simp_wf; simp [Mode.rank, Prod.lex_def]; try omega)
+
+def toJson (S : Schema) (T : Txt) (m : Nat) (v : Val) : Json := toJ S T (.slots (S.slots m)) v
+
+/-! ### JSON readers (`pdata/internal/json`, `pdata/*/json.go`) -/
+
+/-- find a slot by either spelling of the key -/
+def findKey : List Slot → Nat → List Nat → Option Hit
+  | [], _, _ => none
+  | .one f :: ss, i, k => if str f.json == k || str f.orig == k then some ⟨i, f, false⟩ else findKey ss (i + 1) k
+  | .oneof _ alts :: ss, i, k =>
+    match alts.find? (fun a => str a.json == k || str a.orig == k) with
+    | some a => some ⟨i, a, true⟩
+    | none => findKey ss (i + 1) k
+
+/-- decimal text with optional sign → two's complement pattern of width `w`, range-checked (`strconv.ParseInt/ParseUint`,
+`iter.ReadInt64/ReadUint64`) -/
+def parseInt (T : Txt) (signed : Bool) (w : Nat) (t : List Nat) : Option Nat :=
+  match t with
+  | 45 :: ds =>
+    if !signed then none else
+    match T.undec ds with
+    | some n => if n ≤ 2 ^ (w - 1) then some ((2 ^ w - n) % 2 ^ w) else none
+    | none => none
+  | ds =>
+    match T.undec ds with
+    | some n => if n < (if signed then 2 ^ (w - 1) else 2 ^ w) then some n else none
+    | none => none
+
+def enumByName (S : Schema) (e : Nat) (name : List Nat) : Option Nat :=
+  match S.enums[e]? with
+  | some en => (en.values.find? (fun p => str p.1 == name)).map (·.2)
+  | none => none
+
+def stripQuotes (b : List Nat) : List Nat :=
+  if b.length ≥ 2 ∧ b.head? = some 34 ∧ b.getLast? = some 34 then (b.drop 1).dropLast else b
+
+/-- one non-message JSON value → stored pattern -/
+def readLeaf (S : Schema) (T : Txt) (ty : Ty) (j : Json) : Option Val :=
+  match ty with
+  | .u64 | .fixed64 => match j with
+    | .num t | .str t => (parseInt T false 64 t).map .num
+    | _ => none
+  | .i64 | .sfixed64 => match j with
+    | .num t | .str t => (parseInt T true 64 t).map .num
+    | _ => none
+  | .u32 | .fixed32 => match j with
+    | .num t | .str t => (parseInt T false 32 t).map .num
+    | _ => none
+  | .i32 => match j with
+    | .num t | .str t => (parseInt T true 32 t).map .num
+    | _ => none
+  | .s32 => match j with      -- `scale`, `offset`: read with `iter.ReadInt32()` directly (numbers only)
+    | .num t => (parseInt T true 32 t).map .num
+    | _ => none
+  | .enum e => match j with
+    | .num t => (parseInt T true 32 t).map .num
+    | .str t => (enumByName S e t).map .num
+    | _ => none
+  | .bool => match j with
+    | .tt => some (.num 1)
+    | .ff => some (.num 0)
+    | _ => none
+  | .double => match j with
+    | .num t | .str t => (T.fparse t).map .num
+    | _ => none
+  | .string => match j with
+    | .str b => some (.bytes b)
+    | .null => some (.bytes [])
+    | _ => none
+  | .bytes => match j with
+    | .str b => (T.unb64 b).map .bytes
+    | .null => some (.bytes [])
+    | _ => none
+  | .id n => match j with
+    | .str b =>
+      let b := stripQuotes b
+      if b.isEmpty then some (.bytes [])
+      else if b.length ≠ 2 * n then none
+      else (T.unhex b).map (fun p => .bytes (if allZero p then [] else p))
+    | .null => some (.bytes [])
+    | _ => none
+  | .msg _ => none
+
+def Json.size : Json → Nat
+  | .acons h t => 1 + h.size + t.size
+  | .ocons _ v t => 1 + v.size + t.size
+  | _ => 1
+
+/-- read an array of scalars / strings, appending to `cur` -/
+def readLeafArr (S : Schema) (T : Txt) (ty : Ty) (cur : Val) : Json → Option Val
+  | .acons h t => match readLeaf S T ty h with
+    | some x => readLeafArr S T ty (Val.snoc cur x) t
+    | none => none
+  | .anil | .null => some cur
+  | _ => none
+
+/-- `ReadObjectCB` of message `m` into `acc` (members in document order; unknown members skipped) -/
+def fromJ (S : Schema) (T : Txt) (D : List Val) (m : Nat) (acc : Val) (j : Json) : Option Val :=
+  match j with
+  | .onil | .null => some acc
+  | .ocons k v tl =>
+    let keys := ((S.msgs[m]?).map (·.jsonKeys)).getD []
+    if !(keys.any (fun s => str s == k)) then fromJ S T D m acc tl
+    else match findKey (S.slots m) 0 k with
+      | none => fromJ S T D m acc tl
+      | some hit =>
+        let cur := Val.get acc hit.idx
+        match hit.f.ty with
+        | .msg sub =>
+          if hit.alt then
+            match fromJ S T D sub (D.getD sub .nil) v with
+            | some x => fromJ S T D m (Val.set acc hit.idx (.cons (.num hit.f.num) (.cons x .nil))) tl
+            | none => none
+          else if hit.f.card = .req then
+            match fromJ S T D sub cur v with
+            | some x => fromJ S T D m (Val.set acc hit.idx x) tl
+            | none => none
+          else
+            match fromJArr S T D sub cur v with
+            | some x => fromJ S T D m (Val.set acc hit.idx x) tl
+            | none => none
+        | ty =>
+          if !hit.alt ∧ (hit.f.card = .rep ∨ hit.f.card = .packed) then
+            match readLeafArr S T ty cur v with
+            | some x => fromJ S T D m (Val.set acc hit.idx x) tl
+            | none => none
+          else
+            match readLeaf S T ty v with
+            | some x =>
+              fromJ S T D m (Val.set acc hit.idx (if hit.alt then .cons (.num hit.f.num) (.cons x .nil) else x)) tl
+            | none => none
+  | _ => none
+termination_by (j.size, 0)
+decreasing_by all_goals simp_wf <;> first | (apply Prod.Lex.left; simp [Json.size]; omega) | (apply Prod.Lex.right; simp)
+where
+  /-- array of objects, each a fresh message appended to `cur` -/
+  fromJArr (S : Schema) (T : Txt) (D : List Val) (sub : Nat) (cur : Val) (j : Json) : Option Val :=
+    match j with
+    | .anil | .null => some cur
+    | .acons h t =>
+      match fromJ S T D sub (D.getD sub .nil) h with
+      | some x => fromJArr S T D sub (Val.snoc cur x) t
+      | none => none
+    | _ => none
+  termination_by (j.size, 1)
+  decreasing_by all_goals simp_wf <;> first | (apply Prod.Lex.left; simp [Json.size]; omega) | (apply Prod.Lex.right; simp)
+
+def fromJson (S : Schema) (T : Txt) (D : List Val) (m : Nat) (j : Json) : Option Val :=
+  match j with
+  | .onil | .ocons _ _ _ | .null => fromJ S T D m (D.getD m .nil) j
+  | _ => none
+
 end OtelVerif.C08
